@@ -2,11 +2,12 @@
 
     Statements over model/CoreProps.v (tied to python-pptx by the correspondence in
     checks/c18.py).  Spec-level vocabulary defined in proofs/CoreProps_proofs.v:
-    w3c_full / w3c_date / w3c_ym (zero-padded W3CDTF text), off_str / off_seconds (zone
-    designator and the seconds east of UTC it denotes), stored (text of the first child
-    with the tag), run (fold_left of assignments), goodb / rejb (assignments the statement
-    says must be accepted / refused), last_good, reading_of, date_guard, dec_len,
-    rev_acceptable. *)
+    w3c_full / w3c_min / w3c_date / w3c_ym (zero-padded W3CDTF text), timeform / time_text /
+    form_ok (minutes, seconds, seconds with fraction), zone / zone_str / zone_seconds / zone_ok
+    (nothing, Z, signed hh:mm and the seconds east of UTC it denotes), stored (text of the
+    first child with the tag), utc_wall, run (fold_left of assignments), goodb / rejb / ovfb
+    (assignments the statement says must be accepted / refused / cannot be represented),
+    last_good, reading_of, date_guard, dec_len, rev_acceptable. *)
 From V.lib Require Import Prelude Calendar.
 From V.model Require Import CoreProps.
 From V.proofs Require Import Calendar_proofs CoreProps_proofs.
@@ -31,15 +32,28 @@ Print Assumptions C18_text_limit.
 
 (** ---- datetimes ---- *)
 
-(** A datetime whose year is at least 1000 is accepted by every date property and read
-    back as its wall-clock fields to the second (microsecond dropped; tzinfo plays no part,
-    see C18_date_tzaware_refuted). *)
+(** A naive datetime of any year 1..9999 is accepted by every date property and read back
+    to the second (microsecond dropped). *)
 Theorem C18_date : forall (p : prop) (d : pydt) (st : cpstate),
-  kind_of p = KDate -> valid_pydt d = true -> (1000 <= dt_year (p_dt d))%Z ->
+  kind_of p = KDate -> valid_pydt d = true -> p_tz d = None ->
   snd (set_prop p (VDt d) st) = Ok tt /\
   get_prop (fst (set_prop p (VDt d) st)) p = Ok (ODt (Some (p_dt d))).
-Proof. exact date_roundtrip. Qed.
+Proof. exact date_roundtrip_naive. Qed.
 Print Assumptions C18_date.
+
+(** An aware datetime with utcoffset [o] seconds is read back as the equivalent UTC wall
+    clock, the valid date-time whose instant is [to_seconds local - o]; when that lies outside
+    years 1..9999 the assignment raises OverflowError and the element is untouched. *)
+Theorem C18_date_aware : forall (p : prop) (d : pydt) (o : Z) (st : cpstate),
+  kind_of p = KDate -> valid_pydt d = true -> p_tz d = Some o ->
+  let utc := add_seconds (p_dt d) (- o) in
+  to_seconds utc = (to_seconds (p_dt d) - o)%Z /\
+  (in_py_range utc = true ->
+     snd (set_prop p (VDt d) st) = Ok tt /\
+     get_prop (fst (set_prop p (VDt d) st)) p = Ok (ODt (Some utc))) /\
+  (in_py_range utc = false -> set_prop p (VDt d) st = (st, Err OverflowErr)).
+Proof. exact date_roundtrip_aware. Qed.
+Print Assumptions C18_date_aware.
 
 (** Anything that is not a datetime raises ValueError, element untouched. *)
 Theorem C18_date_type : forall (p : prop) (v : pyv) (st : cpstate),
@@ -47,47 +61,25 @@ Theorem C18_date_type : forall (p : prop) (v : pyv) (st : cpstate),
 Proof. exact date_type. Qed.
 Print Assumptions C18_date_type.
 
-(** Below year 1000 the statement fails: datetime(999,1,2,3,4,5) is accepted, written as
-    999-01-02T03:04:05Z, reads back None, and the part is no longer schema-valid. *)
-Theorem C18_date_lt1000_refuted : exists d : pydt,
-  valid_pydt d = true /\ (dt_year (p_dt d) < 1000)%Z /\
-  snd (set_prop Created (VDt d) []) = Ok tt /\
-  get_prop (fst (set_prop Created (VDt d) [])) Created = Ok (ODt None) /\
-  valid_cp (fst (set_prop Created (VDt d) [])) = false.
-Proof. exact date_lt1000_refuted. Qed.
-Print Assumptions C18_date_lt1000_refuted.
-
-(** An aware datetime is stored by its wall-clock fields with the suffix Z: 23:59:59+05:00
-    reads back 23:59:59, whereas the equivalent UTC time is 18:59:59. *)
-Theorem C18_date_tzaware_refuted : exists (d : pydt) (o : Z),
-  valid_pydt d = true /\ p_tz d = Some o /\ o <> 0%Z /\
-  get_prop (fst (set_prop Created (VDt d) [])) Created = Ok (ODt (Some (p_dt d))) /\
-  add_seconds (p_dt d) (- o) <> p_dt d.
-Proof. exact date_tzaware_refuted. Qed.
-Print Assumptions C18_date_tzaware_refuted.
-
 (** ---- reading W3CDTF text ---- *)
 
-(** Complete date and time followed by a zone designator (any two digits each, which
-    includes every offset from -14:00 to +14:00): the reading is the equivalent UTC time,
-    i.e. the instant [to_seconds local - offset]; OverflowError when that falls outside
-    years 1..9999. *)
-Theorem C18_offset : forall (st : cpstate) (p : prop) (t : datetime) (neg : bool) (hh mm : Z),
-  kind_of p = KDate -> stored st p (w3c_full t ++ off_str neg hh mm) ->
-  valid_datetime t = true -> (1 <= dt_year t <= 9999)%Z -> (0 <= hh <= 99)%Z -> (0 <= mm <= 99)%Z ->
-  let utc := add_seconds t (- off_seconds neg hh mm) in
-  to_seconds utc = (to_seconds t - off_seconds neg hh mm)%Z /\
+(** A complete date with a time of any W3CDTF granularity (minutes; seconds; seconds with a
+    decimal fraction) followed by any zone designator (nothing, Z, or sign hh:mm with any
+    two digits each, which includes every offset from -14:00 to +14:00): the reading is the
+    equivalent UTC time, i.e. the instant [to_seconds local - offset]; OverflowError when
+    that falls outside years 1..9999. *)
+Theorem C18_offset : forall (st : cpstate) (p : prop) (g : timeform) (t : datetime) (z : zone),
+  kind_of p = KDate -> stored st p (time_text g t ++ zone_str z) ->
+  valid_datetime t = true -> (1 <= dt_year t <= 9999)%Z -> form_ok g t -> zone_ok z ->
+  let utc := add_seconds t (- zone_seconds z) in
+  to_seconds utc = (to_seconds t - zone_seconds z)%Z /\
   valid_datetime utc = true /\
   get_prop st p = if in_py_range utc then Ok (ODt (Some utc)) else Err OverflowErr.
-Proof. exact read_offset. Qed.
+Proof. exact read_time. Qed.
 Print Assumptions C18_offset.
 
-(** The other granularities the parser supports: complete date and time followed by anything
-    that is not six characters long (nothing, Z, a fraction and Z ...), date, year-month, year. *)
+(** The granularities without a time: date, year-month, year. *)
 Theorem C18_granularity : forall (st : cpstate) (p : prop), kind_of p = KDate ->
-  (forall t z, stored st p (w3c_full t ++ z) -> length z <> 6%nat ->
-     valid_datetime t = true -> (1 <= dt_year t <= 9999)%Z ->
-     get_prop st p = Ok (ODt (Some t))) /\
   (forall y m d, stored st p (w3c_date y m d) -> valid_date (y, m, d) = true -> (1 <= y <= 9999)%Z ->
      get_prop st p = Ok (ODt (Some (mkDT y m d 0 0 0)))) /\
   (forall y m, stored st p (w3c_ym y m) -> (1 <= m <= 12)%Z -> (1 <= y <= 9999)%Z ->
@@ -96,26 +88,6 @@ Theorem C18_granularity : forall (st : cpstate) (p : prop), kind_of p = KDate ->
      get_prop st p = Ok (ODt (Some (mkDT y 1 1 0 0 0)))).
 Proof. exact granularity. Qed.
 Print Assumptions C18_granularity.
-
-(** W3CDTF granularities the parser gets wrong.  Hours and minutes with a designator
-    (2003-12-31T10:14+01:00) are unreadable; with a fraction of a second the designator is
-    ignored (2003-12-31T10:14:55.5+01:00 reads 10:14:55, not 09:14:55); a fraction and Z
-    that make six characters (.1234Z) are unreadable. *)
-Theorem C18_offset_minutes_refuted :
-  parse_w3cdtf (w3c_date 2003 12 31 ++ c_T :: pad2 10 ++ c_colon :: pad2 14 ++ off_str false 1 0) = Err ValueErr.
-Proof. exact minutes_granularity_witness. Qed.
-Print Assumptions C18_offset_minutes_refuted.
-
-Theorem C18_offset_fraction_refuted : exists (t : datetime) (frac : str),
-  parse_w3cdtf (w3c_full t ++ frac ++ off_str false 1 0) = Ok t /\
-  add_seconds t (- off_seconds false 1 0) <> t.
-Proof. exact offset_fraction_refuted. Qed.
-Print Assumptions C18_offset_fraction_refuted.
-
-Theorem C18_fraction_z_refuted :
-  parse_w3cdtf (w3c_full t2003 ++ [46; 49; 50; 51; 52; 90]%N) = Err ValueErr.
-Proof. exact fraction_z_witness. Qed.
-Print Assumptions C18_fraction_z_refuted.
 
 (** ---- revision ---- *)
 
@@ -126,8 +98,8 @@ Theorem C18_revision : forall (z : Z) (st : cpstate), (1 <= z)%Z -> (dec_len z <
 Proof. exact revision_roundtrip. Qed.
 Print Assumptions C18_revision.
 
-(** Integers below 1, False, None, strings, dates and other objects raise ValueError,
-    element untouched. *)
+(** Integers below 1, True and False, None, strings, dates and other objects raise
+    ValueError, element untouched. *)
 Theorem C18_revision_reject : forall (v : pyv) (st : cpstate),
   rev_acceptable v = false -> set_prop Revision v st = (st, Err ValueErr).
 Proof. exact revision_reject. Qed.
@@ -146,15 +118,6 @@ Theorem C18_revision_read : forall st : cpstate,
 Proof. exact revision_read. Qed.
 Print Assumptions C18_revision_read.
 
-(** True passes the isinstance(int) test: it is accepted, written as the text True, and
-    reads back 0. *)
-Theorem C18_revision_bool_refuted :
-  snd (set_prop Revision (VBool true) []) = Ok tt /\
-  get_text (fst (set_prop Revision (VBool true) [])) Revision = s_True /\
-  get_prop (fst (set_prop Revision (VBool true) [])) Revision = Ok (OInt 0).
-Proof. exact revision_bool_refuted. Qed.
-Print Assumptions C18_revision_bool_refuted.
-
 (** ---- independence and histories ---- *)
 
 (** Assigning one property -- accepted or refused, any value -- leaves the readings of the
@@ -165,10 +128,11 @@ Proof. exact frame. Qed.
 Print Assumptions C18_frame.
 
 (** After any sequence of assignments, each of which the statement says is accepted
-    (goodb) or refused (rejb), every property reads the value of the last accepted
-    assignment to it, or what it read initially if there was none. *)
+    (goodb), refused (rejb) or is an aware datetime without a representable UTC time (ovfb),
+    every property reads the value of the last accepted assignment to it, or what it read
+    initially if there was none. *)
 Theorem C18_history : forall (ops : list op) (st : cpstate) (q : prop),
-  Forall (fun o => goodb o || rejb o = true) ops ->
+  Forall (fun o => goodb o || rejb o || ovfb o = true) ops ->
   get_prop (run ops st) q =
   match last_good ops q with Some v => Ok (reading_of v) | None => get_prop st q end.
 Proof. exact history. Qed.
@@ -178,11 +142,10 @@ Print Assumptions C18_history.
 
 (** The schema (xsd:all) asks for each of the 15 children at most once, in any order, nothing
     else; cp:lastPrinted an xsd:dateTime; dcterms:created / modified typed W3CDTF a
-    gYear, gYearMonth, date or dateTime (valid_cp).  Every assignment whatsoever keeps a
-    valid element valid, except a datetime below year 1000 (C18_date_lt1000_refuted). *)
+    gYear, gYearMonth, date or dateTime (valid_cp).  Every assignment of any value, accepted
+    or not, keeps a valid element valid. *)
 Theorem C18_valid_step : forall (p : prop) (v : pyv) (st : cpstate),
-  valid_cp st = true ->
-  (forall d, v = VDt d -> kind_of p = KDate -> valid_pydt d = true /\ (1000 <= dt_year (p_dt d))%Z) ->
+  valid_cp st = true -> (forall d, v = VDt d -> valid_pydt d = true) ->
   valid_cp (fst (set_prop p v st)) = true.
 Proof. exact valid_step. Qed.
 Print Assumptions C18_valid_step.
@@ -200,7 +163,7 @@ Print Assumptions C18_valid_history.
 Theorem C18_default_part : forall now : pydt,
   (forall st, core_properties (Some st) now = (Some st, st)) /\
   core_properties None now = (Some (default_part now), default_part now) /\
-  (valid_pydt now = true -> (1000 <= dt_year (p_dt now))%Z ->
+  (valid_pydt now = true -> p_tz now = None ->
    valid_cp (default_part now) = true /\
    forall q, get_prop (default_part now) q =
      match q with
@@ -238,31 +201,85 @@ Example C18_text_limit_nonvacuous : (255 < length (repeat 97%N 256))%nat.
 Proof. vm_compute. lia. Qed.
 
 Example C18_date_nonvacuous :
-  let d := mkPydt (mkDT 2024 2 29 23 59 59) 999999 None in
-  kind_of LastPrinted = KDate /\ valid_pydt d = true /\ (1000 <= dt_year (p_dt d))%Z.
-Proof. vm_compute. repeat split; discriminate. Qed.
+  let d := mkPydt (mkDT 4 2 29 23 59 59) 999999 None in
+  kind_of LastPrinted = KDate /\ valid_pydt d = true /\ p_tz d = None.
+Proof. vm_compute. repeat split. Qed.
+
+Example C18_date_aware_nonvacuous :
+  valid_pydt dt_aware = true /\ p_tz dt_aware = Some 18000%Z /\
+  in_py_range (add_seconds (p_dt dt_aware) (- 18000)) = true /\
+  in_py_range (add_seconds (mkDT 1 1 1 0 0 0) (- 60)) = false.
+Proof. vm_compute. repeat split. Qed.
 
 Example C18_offset_nonvacuous :
-  let st := [mkChild (TProp Created) (w3c_full (mkDT 2020 3 1 0 30 0) ++ off_str false 1 0) true] in
-  stored st Created (w3c_full (mkDT 2020 3 1 0 30 0) ++ off_str false 1 0) /\
-  valid_datetime (mkDT 2020 3 1 0 30 0) = true /\
+  let t := mkDT 2020 3 1 0 30 0 in
+  let st := [mkChild (TProp Created) (time_text TMin t ++ zone_str (ZOff false 1 0)) true] in
+  stored st Created (time_text TMin t ++ zone_str (ZOff false 1 0)) /\
+  valid_datetime t = true /\ form_ok TMin t /\ zone_ok (ZOff false 1 0) /\
   get_prop st Created = Ok (ODt (Some (mkDT 2020 2 29 23 30 0))).
-Proof. split; [eexists; split; reflexivity|]. vm_compute. split; reflexivity. Qed.
+Proof.
+  split; [eexists; split; reflexivity|]. split; [reflexivity|]. split; [reflexivity|].
+  split; [cbn; lia|]. vm_compute. reflexivity.
+Qed.
+
+Example C18_offset_fraction_nonvacuous :
+  form_ok (TFrac [49; 50; 51; 52]%N) t2003 /\
+  parse_w3cdtf (time_text (TFrac [49; 50; 51; 52]%N) t2003 ++ zone_str (ZOff true 14 0)) =
+  Ok (mkDT 2004 1 1 0 14 55).
+Proof. split; [split; [discriminate|reflexivity]|]. vm_compute. reflexivity. Qed.
 
 Example C18_revision_nonvacuous : (1 <= 4294967296)%Z /\ (dec_len 4294967296 <= 4300)%N.
 Proof. vm_compute. split; discriminate. Qed.
 
 Example C18_history_nonvacuous :
   let ops := [(Title, VStr [97]%N); (Revision, VInt 0); (Created, VDt (mkPydt (mkDT 2001 2 3 4 5 6) 7 None));
-              (Title, VStr (repeat 98%N 256)); (Revision, VInt 7); (Title, VStr [99]%N); (Created, VNone)] in
-  Forall (fun o => goodb o || rejb o = true) ops /\
+              (Title, VStr (repeat 98%N 256)); (Revision, VInt 7); (Title, VStr [99]%N); (Created, VNone);
+              (Revision, VBool true); (Modified, VDt (mkPydt (mkDT 1 1 1 0 0 0) 0 (Some 60%Z)));
+              (LastPrinted, VDt dt_aware)] in
+  Forall (fun o => goodb o || rejb o || ovfb o = true) ops /\
   get_prop (run ops []) Title = Ok (OStr [99]%N) /\
   get_prop (run ops []) Revision = Ok (OInt 7) /\
   get_prop (run ops []) Created = Ok (ODt (Some (mkDT 2001 2 3 4 5 6))) /\
+  get_prop (run ops []) Modified = Ok (ODt None) /\
+  get_prop (run ops []) LastPrinted = Ok (ODt (Some (mkDT 2020 2 29 18 59 59))) /\
   valid_cp (run ops []) = true.
 Proof. split; [repeat constructor|]. vm_compute. repeat split. Qed.
 
 Example C18_default_part_nonvacuous :
   let now := mkPydt (mkDT 2024 1 2 3 4 5) 678 None in
-  valid_pydt now = true /\ (1000 <= dt_year (p_dt now))%Z.
-Proof. vm_compute. split; [reflexivity|discriminate]. Qed.
+  valid_pydt now = true /\ p_tz now = None.
+Proof. vm_compute. split; reflexivity. Qed.
+
+(** ---- regression: the inputs on which the code failed before it was repaired ---- *)
+
+(** datetime(999,1,2,3,4,5) now round-trips and the part stays schema-valid. *)
+Example C18_regress_year_999 :
+  valid_pydt dt999 = true /\
+  snd (set_prop Created (VDt dt999) []) = Ok tt /\
+  get_prop (fst (set_prop Created (VDt dt999) [])) Created = Ok (ODt (Some (mkDT 999 1 2 3 4 5))) /\
+  valid_cp (fst (set_prop Created (VDt dt999) [])) = true.
+Proof. exact regress_year_999. Qed.
+
+(** 23:59:59+05:00 now reads 18:59:59. *)
+Example C18_regress_aware :
+  valid_pydt dt_aware = true /\
+  get_prop (fst (set_prop Created (VDt dt_aware) [])) Created = Ok (ODt (Some (mkDT 2020 2 29 18 59 59))).
+Proof. exact regress_aware. Qed.
+
+(** revision = True is refused. *)
+Example C18_regress_revision_true : set_prop Revision (VBool true) [] = ([], Err ValueErr).
+Proof. exact regress_revision_true. Qed.
+
+(** 2003-12-31T10:14+01:00, 2003-12-31T10:14:55.5+01:00, 2003-12-31T10:14:55.1234Z *)
+Example C18_regress_minutes :
+  parse_w3cdtf (w3c_date 2003 12 31 ++ c_T :: pad2 10 ++ c_colon :: pad2 14 ++ off_str false 1 0) =
+  Ok (mkDT 2003 12 31 9 14 0).
+Proof. exact regress_minutes. Qed.
+
+Example C18_regress_fraction_offset :
+  parse_w3cdtf (w3c_full t2003 ++ [46; 53]%N ++ off_str false 1 0) = Ok (mkDT 2003 12 31 9 14 55).
+Proof. exact regress_fraction_offset. Qed.
+
+Example C18_regress_fraction_z :
+  parse_w3cdtf (w3c_full t2003 ++ [46; 49; 50; 51; 52; 90]%N) = Ok t2003.
+Proof. exact regress_fraction_z. Qed.
